@@ -3,11 +3,14 @@
 
 package gocql
 
+import "context"
+
 // vConn marks a verification trace point of a connection (see verif_conn_kinds.go). Without the
 // "verif" build tag it is empty and inlined away.
 func (c *Conn) vConn(kind int, call *callReq, a, b int) {}
 
 // argument helpers of the trace points; constant without the tag
+func verifCtxTok(ctx context.Context) int  { return 0 }
 func verifB2I(b bool) int                  { return 0 }
 func verifIsNetErr(err error) bool         { return false }
 func verifWriteClass(err error, n int) int { return 0 }
